@@ -27,7 +27,19 @@ VarCases == {[kind |-> "vars", flags |-> <<>>, supported |-> <<>>, names |-> p, 
 \* to_dict() and looked at by the custom attribute validator - always in the order of the document
 CustomCases == {[kind |-> "custom", flags |-> <<>>, supported |-> <<>>, names |-> p, mapped |-> <<>>]
                   : p \in {q \in [1..3 -> Names] : \A i, j \in 1..3 : i # j => q[i] # q[j]}}
-ASSUME LET S == SetToSeq(ReCases \cup StrictCases \cup VarCases \cup CustomCases)
+\* error records: what an error message is built from must not be a set in iteration order, nor one of the random names
+\* the library draws (for filter detections and added conditions)
+\*   badcond        a rule whose condition cannot be parsed (it loads, conversion fails), rewritten before by a filter
+\*                  (mapped has 1) and / or an add_condition item (mapped has 2)
+\*   filtermissing  a filter whose own condition names a detection it does not define, applied to a rule
+\*   convnum        a value that is no number under convert_type, in a pipeline whose items have the ids `names`
+\*   validatorset   a validator configuration that removes an unknown validator from the set `names`
+\*   unrefcond      a processing item with the conditions `names`, of which the expression uses the first only
+Perm3 == {q \in [1..3 -> Names] : \A i, j \in 1..3 : i # j => q[i] # q[j]}
+ErrCases == {[kind |-> "badcond", flags |-> <<>>, supported |-> <<>>, names |-> <<>>, mapped |-> SetToSortedSeq(m)] : m \in (SUBSET {1, 2})}
+            \cup {[kind |-> "filtermissing", flags |-> <<>>, supported |-> <<>>, names |-> <<>>, mapped |-> <<>>]}
+            \cup {[kind |-> k, flags |-> <<>>, supported |-> <<>>, names |-> p, mapped |-> <<>>] : k \in {"convnum", "validatorset", "unrefcond"}, p \in Perm3}
+ASSUME LET S == SetToSeq(ReCases \cup StrictCases \cup VarCases \cup CustomCases \cup ErrCases)
        IN  ndJsonSerialize(IOEnv.VERIF_OUT, [i \in 1..Len(S) |-> [id |-> i] @@ S[i]])
 Init == x = 0
 Next == UNCHANGED x
